@@ -318,11 +318,14 @@ def url_rules():
 
 def bodies_for(rule):
     """[(name, json body or None, rq description)]"""
-    u = {'cls': RULE_CLASS.get(rule, 'unknown'), 'valid': False, 'etype': '', 'wdn': 0, 'nln': 0, 'ats': [], 'ibgp': False}
+    u = {'cls': RULE_CLASS.get(rule, 'unknown'), 'valid': False, 'etype': '', 'wdn': 0, 'nln': 0, 'ats': [], 'ibgp': False, 'lp': -1}
     if rule == 'send/update':
         base = {'1': 0, '2': [[2, [65001]]], '3': '10.0.0.1'}
         return [('announce', {'attr': dict(base), 'nlri': ['10.5.0.0/16', '10.6.6.0/24']}, dict(u, valid=True, etype='UPDATE', nln=2, ats=[1, 2, 3])),
-                ('announce-lp', {'attr': dict(base, **{'5': 200, '4': 7}), 'nlri': ['10.5.0.0/16']}, dict(u, valid=True, etype='UPDATE', nln=1, ats=[1, 2, 3, 5, 4])),
+                ('announce-lp', {'attr': dict(base, **{'5': 200, '4': 7}), 'nlri': ['10.5.0.0/16']}, dict(u, valid=True, etype='UPDATE', nln=1, ats=[1, 2, 3, 5, 4], lp=200)),
+                ('announce-lp0', {'attr': dict(base, **{'5': 0}), 'nlri': ['10.5.0.0/16']}, dict(u, valid=True, etype='UPDATE', nln=1, ats=[1, 2, 3, 5], lp=0)),
+                ('announce-lp1', {'attr': dict(base, **{'5': 1}), 'nlri': ['10.5.0.0/16']}, dict(u, valid=True, etype='UPDATE', nln=1, ats=[1, 2, 3, 5], lp=1)),
+                ('announce-lpmax', {'attr': dict(base, **{'5': 2147483647}), 'nlri': ['10.5.0.0/16']}, dict(u, valid=True, etype='UPDATE', nln=1, ats=[1, 2, 3, 5], lp=2147483647)),
                 ('withdraw', {'withdraw': ['10.5.0.0/16']}, dict(u, valid=True, etype='UPDATE', wdn=1)),
                 ('both', {'attr': dict(base), 'nlri': ['10.5.0.0/16'], 'withdraw': ['10.9.0.0/16', '10.8.0.0/16']}, dict(u, valid=True, etype='UPDATE', wdn=2, nln=1, ats=[1, 2, 3])),
                 ('empty', {}, dict(u, etype='UPDATE'))]
